@@ -92,7 +92,8 @@ type Record struct {
 	Views    []View   `json:"views"`
 
 	// not judged: for diagnosis and replay
-	where string // function of go-pdf on top of a panic's stack
+	where   string // function of go-pdf on top of a panic's stack
+	errText string // the error without the call
 	job   *Job
 	src   *Source
 	dst   []byte
@@ -201,7 +202,7 @@ func Execute(job *Job) (*Record, error) {
 		}
 		res, ev, outcome, msg, where := doCall(copier, w, r, c, arg, ren)
 		if outcome != "ok" {
-			rec.Outcome, rec.Msg, rec.where = outcome, fmt.Sprintf("%s: %s", c, msg), where
+			rec.Outcome, rec.Msg, rec.where, rec.errText = outcome, fmt.Sprintf("%s: %s", c, msg), where, msg
 			return rec, nil
 		}
 		rec.Events = append(rec.Events, ev)
